@@ -231,12 +231,31 @@ Proof.
   eapply move_take_effect; try eassumption. rewrite Hrow. cbn [row_units]. exact Hu.
 Qed.
 
+(* C11 oldest-first: the released list walks the index scan from its first row; every listed row but
+   the last is released whole and deleted, the last one keeps the remainder (or is deleted when it is
+   used up exactly); the rows after it are untouched *)
+Definition whole (r : bytes * basket_balance) : bytes * dec := (r.1, bb_balance r.2).
+
+Definition take_order_of (s s' : state) (id : N) (rel : list (bytes * dec)) : Prop :=
+  exists pre d bb post x,
+    basket_rows s id = pre ++ (d, bb) :: post /\
+    rel = map whole pre ++ (d, x) :: nil /\
+    0 < U x <= U (bb_balance bb) /\
+    ((x = bb_balance bb /\ basket_rows s' id = post) \/
+     (U x < U (bb_balance bb) /\
+      exists bb', U (bb_balance bb') = U (bb_balance bb) - U x /\ bb_start bb' = bb_start bb /\
+                  basket_rows s' id = (d, bb') :: post)).
+
+Lemma basket_rows_frame s s' id : basket_balances s' = basket_balances s -> basket_rows s' id = basket_rows s id.
+Proof. intros H. unfold basket_rows. rewrite H. reflexivity. Qed.
+
 Lemma take_loop_spec owner id retire : forall fuel needed acc s s' out,
   Inv_core s -> is_Some (baskets s !! id) -> in_ok needed -> 0 < U needed ->
   take_loop fuel owner id retire needed acc s = LOk (s', out) ->
   Inv_core s' /\ step_ok s s' /\ move_frame s s' /\
   exists rel, take_effect owner id retire s s' rel /\ total_units rel = U needed /\
-              out = acc ++ rendered rel /\ Forall (fun x => in_ok x.2 /\ 0 < U x.2) rel.
+              out = acc ++ rendered rel /\ Forall (fun x => in_ok x.2 /\ 0 < U x.2) rel /\
+              take_order_of s s' id rel.
 Proof.
   induction fuel as [|fuel IH]; intros needed acc s s' out Hcore Hid Hn Hnpos H; [discriminate|].
   cbn [take_loop] in H.
@@ -254,7 +273,11 @@ Proof.
     cbn [write_row] in C, S, F, T.
     split; [exact C|]. split; [exact S|]. split; [exact F|].
     exists ((denom, bb_balance bb) :: nil). split; [exact T|]. split; [cbn [total_units snd]; lia|].
-    split; [reflexivity|]. constructor; [cbn [snd]; auto | constructor].
+    split; [reflexivity|]. split; [constructor; [cbn [snd]; auto | constructor]|].
+    exists nil, denom, bb, rest, (bb_balance bb). split; [exact Erows|]. split; [reflexivity|]. split; [lia|].
+    left. split; [reflexivity|]. rewrite basket_rows_eq. cbn [basket_balances set].
+    change (basket_balances (s1 <| basket_balances := ?m |>)) with m. rewrite Ebb.
+    apply (rows_delete_head _ _ _ bb). rewrite <- basket_rows_eq. exact Erows.
   - (* the row is smaller than what is still needed *)
     lstep H as s1 H1. cbv zeta in H. lstep H as needed' Hsub.
     destruct (take_iter s owner id retire denom bb (bb_balance bb) s1 None Hcore Hid Hrow Hbin H1)
@@ -263,11 +286,20 @@ Proof.
     destruct (sub_units _ _ _ Hn Hbin Hsub) as (_ & _ & Hu' & Hin').
     assert (Hid1 : is_Some (baskets (s1 <| basket_balances := delete (id, denom) (basket_balances s1) |>) !! id))
       by (rewrite (mf_baskets _ _ F); exact Hid).
-    destruct (IH _ _ _ _ _ C Hid1 (Hin' ltac:(lia)) ltac:(lia) H) as (C' & S' & F' & rel' & T' & Htot & Hout & Hall).
+    pose proof (add_credit_balance_bb _ _ _ _ _ _ H1) as Ebb.
+    destruct (IH _ _ _ _ _ C Hid1 (Hin' ltac:(lia)) ltac:(lia) H) as (C' & S' & F' & rel' & T' & Htot & Hout & Hall & Hord).
     split; [exact C'|]. split; [eapply step_ok_trans; eassumption|]. split; [eapply move_frame_trans; eassumption|].
     exists ((denom, bb_balance bb) :: rel'). split; [exact (take_effect_trans _ _ _ _ _ _ _ _ T T')|].
     split; [cbn [total_units snd]; lia|]. split; [rewrite Hout, <- app_assoc; reflexivity|].
-    constructor; [cbn [snd]; auto | exact Hall].
+    split; [constructor; [cbn [snd]; auto | exact Hall]|].
+    destruct Hord as (pre & d0 & bb0 & post & x & Hrows2 & Hrel & Hx & Hend).
+    assert (Hrows2' : basket_rows (s1 <| basket_balances := delete (id, denom) (basket_balances s1) |>) id = rest).
+    { rewrite basket_rows_eq. cbn [basket_balances set].
+      change (basket_balances (s1 <| basket_balances := ?m |>)) with m. rewrite Ebb.
+      apply (rows_delete_head _ _ _ bb). rewrite <- basket_rows_eq. exact Erows. }
+    rewrite Hrows2' in Hrows2.
+    exists ((denom, bb) :: pre), d0, bb0, post, x. split; [rewrite Erows, Hrows2; reflexivity|].
+    split; [rewrite Hrel; reflexivity|]. split; [exact Hx | exact Hend].
   - (* the row covers the rest: it keeps the remainder *)
     lstep H as s1 H1. lstep H as nb Hsub. lstep H as m Hm. inversion H; subst s' out; clear H.
     apply orm_update_ok in Hm. destruct Hm as [-> _].
@@ -280,8 +312,15 @@ Proof.
     { cbn [row_units bb_balance]. lia. }
     cbn [write_row] in C, S, F, T.
     split; [exact C|]. split; [exact S|]. split; [exact F|].
+    pose proof (add_credit_balance_bb _ _ _ _ _ _ H1) as Ebb.
     exists ((denom, needed) :: nil). split; [exact T|]. split; [cbn [total_units snd]; lia|].
-    split; [reflexivity|]. constructor; [cbn [snd]; auto | constructor].
+    split; [reflexivity|]. split; [constructor; [cbn [snd]; auto | constructor]|].
+    exists nil, denom, bb, rest, needed. split; [exact Erows|]. split; [reflexivity|]. split; [lia|].
+    right. split; [lia|]. exists {| bb_balance := dnorm nb; bb_start := bb_start bb |}.
+    cbn [bb_balance bb_start]. split; [lia|]. split; [reflexivity|].
+    rewrite basket_rows_eq. cbn [basket_balances set].
+    change (basket_balances (s1 <| basket_balances := ?m |>)) with m. rewrite Ebb.
+    apply (rows_update_head _ _ _ bb); [|reflexivity]. rewrite <- basket_rows_eq. exact Erows.
 Qed.
 
 (* ------------------------------------------------------------------ *)
@@ -387,7 +426,7 @@ Lemma h_take_spec e s owner bd amount retire s' r evs :
     (forall y, bank_sup s1 y = bank_sup s y - at_key bd y tokens) /\
     Inv_core s' /\ step_ok s1 s' /\ move_frame s1 s' /\ take_effect owner id retire s1 s' rel /\
     total_units rel = tokens /\ r = RTake (rendered rel) /\ evs = nil /\
-    Forall (fun x => in_ok x.2 /\ 0 < U x.2) rel.
+    Forall (fun x => in_ok x.2 /\ 0 < U x.2) rel /\ take_order_of s s' id rel.
 Proof.
   intros Hcore Hvb H. unfold h_take in H.
   lstep H as x Hx. destruct x as [id k]. lstep H as cty Hcty. lstep H as u1 Hchk.
@@ -409,7 +448,7 @@ Proof.
   assert (Hid2 : is_Some (baskets s2 !! id)).
   { destruct (bank_only_fields _ _ B12) as (_ & _ & _ & Ebk & _). rewrite Ebk. eauto. }
   destruct (take_loop_spec _ _ _ _ _ _ _ _ _ Hcore2 Hid2 Hnin ltac:(lia) Hloop)
-    as (C & S & F & rel & T & Htot & Hout & Hall).
+    as (C & S & F & rel & T & Htot & Hout & Hall & Hord).
   exists id, k, tokens, s2, rel. rewrite Hd in *.
   split; [exact Hx|]. split; [exact Htok|]. split; [exact Hpos|]. split; [exact Hchk|].
   split; [exact B12|]. split.
@@ -417,7 +456,10 @@ Proof.
   split.
   { intros y. rewrite Hsup2. f_equal. apply bank_sup_frame_eq. exact Hsup1. }
   split; [exact C|]. split; [exact S|]. split; [exact F|]. split; [exact T|].
-  split; [lia|]. split; [rewrite Hout; reflexivity|]. split; [reflexivity | exact Hall].
+  split; [lia|]. split; [rewrite Hout; reflexivity|]. split; [reflexivity|]. split; [exact Hall|].
+  destruct Hord as (pre & d0 & bb0 & post & x & Hrows & Hrest). exists pre, d0, bb0, post, x.
+  split; [|exact Hrest]. rewrite <- Hrows. symmetry. apply basket_rows_frame.
+  destruct (bank_only_fields _ _ B12) as (_ & _ & Ebb & _). exact Ebb.
 Qed.
 
 Theorem take_core e s owner bd amount retire s' r evs :
@@ -461,16 +503,31 @@ Theorem take_exact e s owner bd amount retire s' r evs :
     (forall y, bank_sup s' y = bank_sup s y - at_key bd y tokens) /\
     r = RTake (rendered rel) /\ total_units rel = tokens /\
     Forall (fun x => in_ok x.2 /\ 0 < U x.2) rel /\
-    take_effect owner id retire s s' rel.
+    take_effect owner id retire s s' rel /\ take_order_of s s' id rel.
 Proof.
   intros Hcore Hvb H. destruct (h_take_spec _ _ _ _ _ _ _ _ _ Hcore Hvb H)
-    as (id & k & tokens & s1 & rel & Hx & Htok & _ & _ & B & Hbal & Hsup & _ & _ & F & T & Htot & Hr & _ & Hall).
+    as (id & k & tokens & s1 & rel & Hx & Htok & _ & _ & B & Hbal & Hsup & _ & _ & F & T & Htot & Hr & _ & Hall & Hord).
   exists id, k, tokens, rel. split; [exact Hx|]. split; [exact Htok|]. split.
   { intros x y. rewrite <- Hbal. unfold bank_bal. rewrite (mf_bank _ _ F). reflexivity. }
   split.
   { intros y. rewrite <- Hsup. apply bank_sup_frame_eq. apply F. }
   split; [exact Hr|]. split; [exact Htot|]. split; [exact Hall|].
-  eapply take_effect_bank_only_l; eassumption.
+  split; [eapply take_effect_bank_only_l; eassumption | exact Hord].
+Qed.
+
+(* C11, oldest first *)
+Theorem take_order e s owner bd amount retire s' r evs :
+  Inv_core s -> (forall t, parse_sdk_int amount = Some t -> 0 < t) ->
+  h_take e s owner bd amount retire = LOk (s', r, evs) ->
+  exists id k rel, basket_by_denom s bd = Some (id, k) /\ r = RTake (rendered rel) /\
+    take_order_of s s' id rel /\
+    (forall d, Forall (fun x => x.1 <> d) rel -> basket_balances s' !! (id, d) = basket_balances s !! (id, d)) /\
+    (forall id' d, id' <> id -> basket_balances s' !! (id', d) = basket_balances s !! (id', d)).
+Proof.
+  intros Hcore Hvb H. destruct (take_exact _ _ _ _ _ _ _ _ _ Hcore Hvb H)
+    as (id & k & tokens & rel & Hx & _ & _ & _ & Hr & _ & _ & T & Hord).
+  exists id, k, rel. split; [exact Hx|]. split; [exact Hr|]. split; [exact Hord|].
+  split; [apply (te_unlisted_rows _ _ _ _ _ _ T) | apply (te_other_rows _ _ _ _ _ _ T)].
 Qed.
 
 (* the strings in the response parse back to amounts with the same unit counts *)
@@ -507,4 +564,33 @@ Proof.
   intros T bk ba Hba. destruct (te_owner _ _ _ _ _ _ T bk ba Hba) as (_ & _ & H3 & H4 & _).
   split; [apply H4; reflexivity|]. split; [exact H3|].
   intros su Hsu. exact (te_supply _ _ _ _ _ _ T bk ba su Hba Hsu).
+Qed.
+
+(* the amounts printed in the response parse back to the released unit counts *)
+Lemma total_units_ge rel : Forall (fun x : bytes * dec => in_ok x.2 /\ 0 < U x.2) rel ->
+  Forall (fun x => U x.2 <= total_units rel) rel.
+Proof.
+  induction 1 as [|x l [_ Hx] Hl IH]; [constructor|]. cbn [total_units]. constructor.
+  - assert (0 <= total_units l).
+    { clear IH. induction Hl as [|y l' [_ Hy] _ IH']; cbn [total_units]; lia. }
+    lia.
+  - eapply Forall_impl; [|exact IH]. cbn beta. intros y Hy. lia.
+Qed.
+
+Theorem take_response_parses e s owner bd amount retire s' r evs :
+  Inv_core s -> (forall t, parse_sdk_int amount = Some t -> 0 < t) ->
+  h_take e s owner bd amount retire = LOk (s', r, evs) ->
+  exists tokens rel, parse_sdk_int amount = Some tokens /\ r = RTake (rendered rel) /\ total_units rel = tokens /\
+    Forall2 (fun x y => y.1 = x.1 /\ exists d, parse y.2 = Ok d /\ U d = U x.2) rel (rendered rel).
+Proof.
+  intros Hcore Hvb H. destruct (take_exact _ _ _ _ _ _ _ _ _ Hcore Hvb H)
+    as (id & k & tokens & rel & _ & Htok & _ & _ & Hr & Htot & Hall & _).
+  exists tokens, rel. split; [exact Htok|]. split; [exact Hr|]. split; [exact Htot|].
+  apply rendered_parse.
+  pose proof (sdk_int_bound _ _ Htok (Hvb _ Htok)) as Hb.
+  pose proof (total_units_ge _ Hall) as Hge.
+  clear - Hall Hge Hb Htot. rewrite Htot in Hge. clear Htot. revert Hge.
+  induction Hall as [|x l [Hin Hp] _ IH]; intros Hge; [constructor|].
+  inversion Hge; subst. constructor; [|apply IH; assumption].
+  split; [apply printable_of_units; [exact Hin | lia] | apply Hin].
 Qed.
